@@ -58,7 +58,7 @@ def base_class(run: Run):
     run.table("rest.base:one-class-per-method-of-the-service", isinstance(srt, nodes.Filter) and srt.name == "sort" and J.expr_path(getattr(srt.node, "node", None)) == "service.methods.values",
               group="rest.base:present")
     imports = list(tree.find_all((nodes.Import, nodes.FromImport)))
-    vs = J.render_nodes(env, tree, imports + list(loop.body), ["method", "service", "opts"], maxlen=2)
+    vs = J.render_nodes(env, tree, imports + list(loop.body), ["method", "service", "opts"], maxlen=2 if run.tier == "quick" else 3)
     run.fragments.append(frag_info(tname, "_Base<Method> class", vs))
     counts = {"none": 0, "full": 0}
     for vi, var in enumerate(vs):
